@@ -99,6 +99,22 @@ def codec(rep):
     return len(strings)
 
 
+def _drift_reason(a, b):
+    """Why one key differs between the first and the second export (recorded findings)."""
+    import re
+    if a is None and b == '#EMPTY':
+        # an unpopulated cell of a referenced range got a node of its own on re-import
+        return 'blank-cell-of-a-range-materialised-on-re-import'
+    if isinstance(a, str) and isinstance(b, str) and a.startswith('=') and \
+            re.search(r'[+\-] ?[+\-]', a):
+        fold = a
+        for x, y in (('+ -', '- '), ('- -', '+ '), ('+ +', '+ '), ('- +', '- ')):
+            fold = fold.replace(x, y)
+        if fold == b:
+            return 'sign-run-in-exported-text'
+    return None
+
+
 def _wb_work(item):
     impl.F()
     f = impl.F()
@@ -117,9 +133,13 @@ def _wb_work(item):
         d2 = m2.to_dict()
         if json.dumps(d1, sort_keys=True, default=str) != json.dumps(d2, sort_keys=True, default=str):
             diff = [k for k in set(d1) | set(d2) if d1.get(k) != d2.get(k)]
-            out['problems'].append({'kind': 'second-export-differs', 'keys': sorted(diff)[:6],
-                                    'first': {k: d1.get(k) for k in sorted(diff)[:3]},
-                                    'second': {k: d2.get(k) for k in sorted(diff)[:3]}})
+            groups = {}
+            for k in sorted(diff):
+                groups.setdefault(_drift_reason(d1.get(k), d2.get(k)), []).append(k)
+            for why, keys in groups.items():
+                out['problems'].append({'kind': 'second-export-differs', 'why': why, 'keys': keys[:6],
+                                        'first': {k: d1.get(k) for k in keys[:3]},
+                                        'second': {k: d2.get(k) for k in keys[:3]}})
         o1, o2 = R.observe_all(s1, g), R.observe_all(s2, g)
         for i, e in sem.items():
             if i not in g.cells:
@@ -174,7 +194,8 @@ def workbooks(rep, wd):
         rep.count(max(1, r['n']))
         rep.distinct(('wb', r['seed']))
         for p in r['problems']:
-            rep.violation({'kind': p['kind'], 'seed': r['seed'], 'cell': p.get('cell'),
+            rep.violation({'cat': p['why']} if p.get('why') else
+                          {'kind': p['kind'], 'seed': r['seed'], 'cell': p.get('cell'),
                            'got': p.get('observed') or p.get('exc') or str(p.get('keys'))},
                           {'workbook_seed': r['seed'], 'problem': p,
                            'workbook': c03.describe(gens[r['seed']]),
